@@ -448,8 +448,16 @@ func runC04Writers(c *Ctx, isZeroCut Barrier) {
 			continue
 		}
 		for _, s := range sites {
-			if _, ok := w.allow[fnKey(TopLevel(s.Fn))]; ok {
-				c.OriginCheck("C04-R4", fmt.Sprintf("C04-R4|%s|%s origin", fnKey(TopLevel(s.Fn)), w.name), s.Instr, w.name+" ← "+w.odesc, s.Val, nil, w.origin)
+			owner := fnKey(TopLevel(s.Fn))
+			_, ok := w.allow[owner]
+			if !ok {
+				// the writer was extracted into an unexported helper of an allowed function
+				if rows, okh := c.whoMayRows(TopLevel(s.Fn), w.allow, 0, map[*ssa.Function]bool{}); okh {
+					owner, ok = rows[0], true
+				}
+			}
+			if ok {
+				c.OriginCheck("C04-R4", fmt.Sprintf("C04-R4|%s|%s origin", owner, w.name), s.Instr, w.name+" ← "+w.odesc, s.Val, nil, w.origin)
 			}
 		}
 	}
